@@ -100,6 +100,8 @@ class Dual:
         if isinstance(x, int):
             return Dual(x, Poly.of(x))
         if isinstance(x, float):
+            if x != x or x in (float("inf"), float("-inf")):
+                return Dual(x, Poly.sym("lit(%r)" % x))     # NaN / infinity: an opaque value, compared as a double
             if float(x) == int(x) and abs(x) < 1e15:
                 return Dual(x, Poly.of(int(x)))
             n, d = x.as_integer_ratio()
